@@ -238,9 +238,54 @@ def gene_on_chunk(strand):
     return fn
 
 
+def identifiers_fn(kind, strand):
+    """computed identifiers (REAL digest): the same object built without parent, on the whole chromosome and on a chunk has ONE identifier"""
+    from inscripta.biocantor.gene.feature import FeatureIntervalCollection
+    from inscripta.biocantor.gene.gene import GeneInterval
+    from inscripta.biocantor.gene.variants import VariantInterval, VariantIntervalCollection
+
+    def build(kind, s0, par):
+        ex = [(s0, s0 + 6), (s0 + 9, s0 + 15)]
+        if kind == "feature":
+            return FeatureInterval([e[0] for e in ex], [e[1] for e in ex], strand, feature_name="f", qualifiers={"q": ["v"]}, parent_or_seq_chunk_parent=par())
+        if kind == "transcript":
+            return TranscriptInterval([e[0] for e in ex], [e[1] for e in ex], strand, [s0 + 2, s0 + 9], [s0 + 6, s0 + 13], [CDSFrame.ONE, CDSFrame.TWO],
+                                      transcript_id="t", parent_or_seq_chunk_parent=par())
+        if kind == "cds":
+            return CDSInterval([s0 + 2, s0 + 9], [s0 + 6, s0 + 13], strand, [CDSFrame.ONE, CDSFrame.TWO], parent_or_seq_chunk_parent=par())
+        if kind == "gene":
+            return GeneInterval([build("transcript", s0, par), TranscriptInterval([s0 + 1], [s0 + 5], strand, transcript_id="u", parent_or_seq_chunk_parent=par())],
+                                gene_id="g", parent_or_seq_chunk_parent=par())
+        if kind == "fcoll":
+            return FeatureIntervalCollection([build("feature", s0, par)], feature_collection_id="fc", parent_or_seq_chunk_parent=par())
+        v = VariantInterval(s0 + 3, s0 + 4, "A", "SNV", parent_or_seq_chunk_parent=par())
+        if kind == "variant":
+            return v
+        return VariantIntervalCollection([v, VariantInterval(s0 + 8, s0 + 10, "", "deletion", parent_or_seq_chunk_parent=par())], variant_collection_id="vc",
+                                         parent_or_seq_chunk_parent=par())
+
+    def fn(s0, w):
+        s0, w = concretize(s0, w)
+        with untraced():
+            a = build(kind, s0, lambda: None)
+            b = build(kind, s0, lambda: chrom_parent(GEN))
+            c = build(kind, s0, lambda: chunk_parent(w, 24, seq=GEN[w: w + 24]))
+            ids = lambda o: [str(o.guid)] + [str(x.guid) for x in (o.iter_children() if hasattr(o, "iter_children") else [])]  # noqa: E731
+            return ids(a) == ids(b) == ids(c) and a.to_dict() == c.to_dict()
+
+    return fn
+
+
 def obligations(tier):
     out = []
     quick = tier == "quick"
+    for kind in ("feature", "transcript", "cds", "gene", "fcoll", "variant", "vcoll"):
+        for strand in ((PLUS,) if quick else (PLUS, MINUS)):
+            out.append(Obl("identifier_real_digest_%s_%s" % (kind, sname(strand)), identifiers_fn(kind, strand), dict(s0=int, w=int),
+                           lambda s0, w: 0 <= w and w <= 4 and w <= s0 and s0 <= w + 9, budget=200, cost=10, consts=dict(),
+                           desc="computed identifier (real MD5 digest) and dictionary form of a %s are the same whether it is built without parent, on the whole "
+                                "chromosome or on a sequence chunk (window start 0..4, object anywhere inside the window)" % kind,
+                           bounds="window start 0..4 x object offset 0..9 on a 40-nt genome (realised)", examples=[dict(s0=3, w=0), dict(s0=5, w=2)]))
     cds_shapes = [((5,), None), ((6,), None), ((7,), None), ((3, 3), None), ((4, 5), None), ((2, 4), None), ((4, 5), "shift")]
     if not quick:
         cds_shapes += [((3, 4), None), ((5, 2), None), ((1, 3), None), ((3, 3, 3), None), ((4, 2, 3), None), ((2, 2, 2), "shift")]
@@ -278,6 +323,13 @@ def obligations(tier):
                                         "chunk-relative codons lifted back == exactly the model codons fully inside the window",
                                    bounds="exon lengths %s, frames %s, symbolic (unbounded) first start/gaps/window start, chunk length %d" % (lens, frames, L),
                                    examples=[ex, dict(ex, w=104)]))
+                if f0 == 0 and mode is None and (not quick or lens in ((6,), (4, 5))):
+                    pre_out = (lambda lens, pre: (lambda **kw: pre(**kw) and not bool(_overlaps_window(_starts(lens, kw), lens, kw["w"]))))(lens, pre)
+                    out.append(Obl("codons_cds_outside_chunk_" + tag, codons_on_chunk(lens, strand, frames), params, pre_out, budget=600, cost=20 * k * k,
+                                   desc="CDS with NO base inside its chunk: chromosome answers unchanged; it has no chunk-relative codon (an empty listing or a documented "
+                                        "refusal), never codons in some other coordinate system",
+                                   bounds="exon lengths %s, frames %s, symbolic (unbounded) first start/gaps/window start, chunk length %d, CDS disjoint from the window" % (lens, frames, L),
+                                   examples=[dict(ex, w=400), dict(ex, s0=300)]))
                 span = sum(lens)
                 pre_r = (lambda k, span, pre_ov: (lambda **kw: 100 <= kw["w"] and kw["w"] <= 102 and kw["w"] - span - 8 <= kw["s0"] and
                                                   kw["s0"] <= kw["w"] + L + 2 and all(kw["g%d" % i] <= 3 for i in range(1, k)) and pre_ov(**kw)))(k, span, pre_ov)
